@@ -196,7 +196,7 @@ func run(p *plan.Plan, res *Result) {
 			cancel()
 			return
 		}
-		ref, err := sut.BuildRef(ctx, w, lg, kc, p.Scen.Format, p.Scen.Docs[0].Render(p.Scen.Format), p.Scen.Clients)
+		ref, err := sut.BuildRef(ctx, w, lg, kc, p.Scen.Format, p.Scen.Docs[0].Render(p.Scen.Format), p.Scen.Clients, p.Scen.Docs[0].XSpan)
 		if err != nil {
 			res.Harness = "build ref: " + err.Error()
 			cancel()
@@ -212,7 +212,7 @@ func run(p *plan.Plan, res *Result) {
 			return
 		}
 		kc := sut.KeychainFromDocs(w, p.Scen.Docs, nil)
-		ref, err := sut.BuildRef(ctx, w, lg, kc, p.Scen.Format, p.Scen.Docs[0].Render(p.Scen.Format), p.Scen.Clients)
+		ref, err := sut.BuildRef(ctx, w, lg, kc, p.Scen.Format, p.Scen.Docs[0].Render(p.Scen.Format), p.Scen.Clients, p.Scen.Docs[0].XSpan)
 		if err != nil {
 			res.Harness = "build ref: " + err.Error()
 			cancel()
